@@ -452,3 +452,66 @@ def c08(tier):
         if a.count(",") == 0:
             out.append(f"{{ {C08_PRE} RyV = {f}({b}); {C08_POST} }}")
     return out
+
+
+# ------------------------------------------------------------------------------------------ C09
+def c09_literals():
+    vals = {0, 1}
+    for k in (7, 8, 15, 16, 31, 32, 63):
+        vals |= {2 ** k - 1, 2 ** k, 2 ** k + 1}
+    vals |= {2 ** 64 - 1}
+    lits = []
+    for v in sorted(vals):
+        for spell in (str(v), hex(v)):
+            for suf in ("", "U", "u", "LL", "ll", "ULL", "ull"):
+                lits.append(spell + suf)
+    return lits
+
+
+def c09(tier):
+    out = []
+    lits = c09_literals()
+    for l in lits:
+        import re as _re
+        m = _re.match(r"^(\d+)(LL|ll)?$", l)
+        if m and int(m.group(1)) >= 2 ** 63:
+            continue  # a decimal literal without U that does not fit long long has no C11 type
+        out.append(f"{{ RddV = {l}; }}")
+        out.append(f"{{ RddV = {l} >> 1; }}")
+        out.append(f"{{ RddV = -{l}; }}")
+        out.append(f"{{ RddV = ~{l}; }}")
+        out.append(f"{{ RddV = {l} + RssV; }}")
+    small = ["0", "1", "3", "127", "128", "255", "0x7fffffff", "0x80000000", "2147483648", "4294967295", "4294967296",
+             "1U", "3U", "0x80000000U", "4294967295U", "1LL", "0x7fffffffffffffffLL", "1ULL", "0xffffffffffffffffULL",
+             "5u", "9ll"]
+    for a, b in itertools.product(small, small):
+        for op in ("+", "-", "*"):
+            out.append(f"{{ RddV = {a} {op} {b}; }}")
+        for op in ("<", ">", "<=", ">=", "==", "!="):
+            out.append(f"{{ RddV = ({a} {op} {b}); }}")
+    for a in small:
+        for op in ("+", "-", "~", "!"):
+            out.append(f"{{ RddV = {op}{a}; }}")
+            out.append(f"{{ RddV = {op}{a} < 1U; }}")
+            out.append(f"{{ RddV = ({op}{a}) >> 3; }}")
+        out.append(f"{{ RddV = -(-{a}); }}")
+        out.append(f"{{ RddV = {a} ? RssV : RttV; }}")
+        out.append(f"{{ RddV = ({a} == 3) ? RssV : RttV; }}")
+    for a, b in itertools.product(["8", "7", "9", "0", "1", "6U", "100LL", "0x10"], ["2", "3", "0", "1", "4U", "7LL"]):
+        out.append(f"{{ RddV = {a} / {b}; }}")
+        out.append(f"{{ RddV = {a} % {b}; }}")
+    # dead operands that live code still uses
+    pre = "int32_t n = RsV; uint8_t q = RtV;"
+    for dead, live in itertools.product(["n", "q", "RtV", "RuV", "clz32(n)", "({ n = n + 1; n; })", "n++", "(n + q)", "siV"],
+                                        ["n", "RuV", "7"]):
+        out.append(f"{{ {pre} RdV = 1 ? {live} : {dead}; RxV = n + q + RtV; }}")
+        out.append(f"{{ {pre} RdV = 0 ? {dead} : {live}; RxV = n + q + RtV; }}")
+        out.append(f"{{ {pre} RdV = (2 > 1) ? {live} : {dead}; RxV = n + q + RuV; }}")
+        out.append(f"{{ {pre} RdV = (1 == 0 ? {dead} : {live}); RxV = n * 3 + RuV; }}")
+    for t in ["int8_t", "uint16_t", "int32_t", "uint64_t", "int", "unsigned int"]:
+        out.append(f"{{ RddV = sizeof({t}); }}")
+        out.append(f"{{ {t} v = RsV; RddV = sizeof(v); }}")
+        out.append(f"{{ {t} v = RsV; RddV = sizeof(v) * 8 - 1; }}")
+    out += ["{ RddV = sizeof(RsV); }", "{ RddV = sizeof(RssV); }", "{ RddV = sizeof(PuV); }", "{ RddV = sizeof(RsV + RttV); }",
+            "{ RddV = sizeof(1LL); }", "{ RddV = sizeof(1); }", "{ RddV = sizeof(RsV) - 5; }", "{ RddV = (sizeof(RsV) > -1); }"]
+    return out
